@@ -25,6 +25,7 @@ EXPLANATION = (
     "very object the wrapped runner returned and builds its record (counts, shot number, serialised circuit) from "
     "that same measurement/circuit pair, appended before saving. "
     "Entry points are resolved as defined or inherited: a simulator that drops its own run_and_measure inherits the base runner's counting, which is reported."
+    ' Round 4: a batch handed over to the single-circuit entry point is dominated by the length guard.'
 )
 RULE_TEXT = "instances = (class, entry point, execution call) triples, counter writes, guard tests, tracker return/record fields; distinct by (rule, construct)"
 ASSUMPTIONS = [
